@@ -299,9 +299,20 @@ def callLow (secs : List (List String)) : Option String := do
     some s!"{res.2} {showE res.1}"
   | _ => none
 
+/-- call drop <start> <length> ; <FHDL expr>  ->  "1" if `visit_Slice` drops a slice `[start, start+length)` of the
+    (already resolved) node altogether, else "0" (model `dropsSlice`). -/
+def callDrop (secs : List (List String)) : Option String := do
+  match secs with
+  | [st, len] :: fe :: [] =>
+    let (e, r) ← parseFE fe
+    if !r.isEmpty then none
+    some (if dropsSlice e (← st.toNat?) (← len.toNat?) then "1" else "0")
+  | _ => none
+
 def call (args : List String) : Option String :=
   match args with
   | "low" :: rest => callLow (splitSemi rest)
+  | "drop" :: rest => callDrop (splitSemi rest)
   | "x" :: rest => callX (splitSemi rest)
   | "sim" :: rest => callSim (splitSemi rest)
   | _ => none
